@@ -39,6 +39,7 @@ type DeclResult struct {
 	Values   []string `json:"values,omitempty"` // value S-expressions
 	Obs      []string `json:"obs,omitempty"`    // observed outcome per value
 	Extra    []string `json:"extra,omitempty"`  // per value: extra observations (allocs, mutation, ctx …)
+	NilRecv  string   `json:"nilrecv,omitempty"`
 	Source   string   `json:"source,omitempty"`
 }
 
@@ -295,6 +296,7 @@ import (
 	"fmt"
 	"math"
 	"reflect"
+	"sort"
 	"strings"
 
 	govaliderrors "github.com/sivchari/govalid/validation/errors"
@@ -388,6 +390,141 @@ func Outcome(err error) string {
 	return "other:" + err.Error()
 }
 
+// FlipCtx: a context whose Err() returns nil for the first K calls and Kind from then on (monotone).
+type FlipCtx struct {
+	context.Context
+	K     int
+	Kind  error
+	Calls int
+}
+
+func (c *FlipCtx) Err() error {
+	c.Calls++
+	if c.Calls > c.K {
+		return c.Kind
+	}
+	return nil
+}
+
+// Snapshot renders a value deeply and deterministically (contents of slices, maps, pointer targets).
+func Snapshot(v any) string {
+	var sb strings.Builder
+	snap(&sb, reflect.ValueOf(v), 0)
+	return sb.String()
+}
+
+func snap(sb *strings.Builder, r reflect.Value, depth int) {
+	if depth > 6 || !r.IsValid() {
+		sb.WriteString("_")
+		return
+	}
+	switch r.Kind() {
+	case reflect.Ptr, reflect.Interface:
+		if r.IsNil() {
+			sb.WriteString("nil")
+			return
+		}
+		sb.WriteString("&")
+		snap(sb, r.Elem(), depth+1)
+	case reflect.Struct:
+		sb.WriteString("{")
+		for i := 0; i < r.NumField(); i++ {
+			sb.WriteString(r.Type().Field(i).Name + ":")
+			snap(sb, r.Field(i), depth+1)
+			sb.WriteString(" ")
+		}
+		sb.WriteString("}")
+	case reflect.Slice:
+		if r.IsNil() {
+			sb.WriteString("nil")
+			return
+		}
+		fmt.Fprintf(sb, "[%d/%d:", r.Len(), r.Cap())
+		for i := 0; i < r.Len(); i++ {
+			snap(sb, r.Index(i), depth+1)
+			sb.WriteString(",")
+		}
+		sb.WriteString("]")
+	case reflect.Array:
+		sb.WriteString("[")
+		for i := 0; i < r.Len(); i++ {
+			snap(sb, r.Index(i), depth+1)
+			sb.WriteString(",")
+		}
+		sb.WriteString("]")
+	case reflect.Map:
+		if r.IsNil() {
+			sb.WriteString("nil")
+			return
+		}
+		keys := []string{}
+		vals := map[string]reflect.Value{}
+		for _, k := range r.MapKeys() {
+			ks := fmt.Sprint(k.Interface())
+			keys = append(keys, ks)
+			vals[ks] = r.MapIndex(k)
+		}
+		sort.Strings(keys)
+		sb.WriteString("map[")
+		for _, k := range keys {
+			sb.WriteString(k + ":")
+			snap(sb, vals[k], depth+1)
+			sb.WriteString(",")
+		}
+		sb.WriteString("]")
+	case reflect.Chan:
+		if r.IsNil() {
+			sb.WriteString("nil")
+			return
+		}
+		fmt.Fprintf(sb, "chan(%d/%d)", r.Len(), r.Cap())
+	case reflect.Func:
+		if r.IsNil() {
+			sb.WriteString("nil")
+		} else {
+			sb.WriteString("func")
+		}
+	default:
+		if r.CanInterface() {
+			sb.WriteString(Repr(r.Interface()))
+		} else {
+			fmt.Fprintf(sb, "%v", r)
+		}
+	}
+}
+
+// IsBits: errors.Is(err, s) and errors.Is(fmt.Errorf("wrap: %w", err), s) for every sentinel.
+func IsBits(err error, sents []error) string {
+	var sb strings.Builder
+	var wrapped error
+	if err != nil {
+		wrapped = fmt.Errorf("wrap: %w", err)
+	}
+	for _, s := range sents {
+		a := err != nil && errors.Is(err, s)
+		b := wrapped != nil && errors.Is(wrapped, s)
+		switch {
+		case a && b:
+			sb.WriteByte('1')
+		case !a && !b:
+			sb.WriteByte('0')
+		default:
+			sb.WriteByte('X') // wrapping changed the verdict
+		}
+	}
+	return sb.String()
+}
+
+// SentinelValuesUnset: the Value of every exported ValidationError sentinel is still nil.
+func SentinelValuesUnset(sents []error) bool {
+	for _, s := range sents {
+		if ve, ok := s.(govaliderrors.ValidationError); ok && ve.Value != nil {
+			return false
+		}
+	}
+	return true
+}
+
 func Run(f func() error) (res string) {
 	defer func() {
 		if r := recover(); r != nil {
@@ -399,6 +536,7 @@ func Run(f func() error) (res string) {
 `
 
 type runner struct {
+	mode    string // observation modes of the driver
 	work    string // scratch dir
 	govalid string // generator binary
 	repo    string
@@ -474,11 +612,14 @@ func tail(s string, n int) string {
 }
 
 // writeDriver adds zz_run.go to the scenario package: one function per struct running every value.
+// modes (comma separated): is (errors.Is against every sentinel, wrappers, nil receiver), ctx (every
+// cancellation point), alloc (AllocsPerRun on the valid path), mut (deep snapshots before/after).
 func (r *runner) writeDriver(sc *Scenario, results []*DeclResult, mode string) {
 	pkg := "p" + sc.ID
+	has := func(m string) bool { return strings.Contains(","+mode+",", ","+m+",") }
 	var sb strings.Builder
-	sb.WriteString("package " + pkg + "\n\nimport (\n\t\"context\"\n\t\"errors\"\n\t\"fmt\"\n\t\"io\"\n\t\"math\"\n\t\"strconv\"\n\n\t\"scen/rt\"\n)\n\n")
-	sb.WriteString("var _ = math.Pi\nvar _ = strconv.Itoa\nvar _ = errors.New\nvar _ = context.Background\n\n")
+	sb.WriteString("package " + pkg + "\n\nimport (\n\t\"context\"\n\t\"errors\"\n\t\"fmt\"\n\t\"io\"\n\t\"math\"\n\t\"strconv\"\n\t\"strings\"\n\t\"testing\"\n\n\t\"scen/rt\"\n)\n\n")
+	sb.WriteString("var _ = math.Pi\nvar _ = strconv.Itoa\nvar _ = errors.New\nvar _ = context.Background\nvar _ = strings.Join\nvar _ = testing.AllocsPerRun\n\n")
 	sb.WriteString("func Run(w io.Writer) {\n")
 	for _, dr := range results {
 		if dr.File == "" {
@@ -492,15 +633,61 @@ func (r *runner) writeDriver(sc *Scenario, results []*DeclResult, mode string) {
 			continue
 		}
 		vals := sc.Values[dr.Decl]
-		sb.WriteString("func run" + dr.Decl + "(w io.Writer) {\n")
+		T := dr.Decl
+		sb.WriteString("func run" + T + "(w io.Writer) {\n")
+		var sentNames []string
+		for _, n := range dr.ErrVars {
+			if n != "ErrNil"+T {
+				sentNames = append(sentNames, n)
+			}
+		}
+		sb.WriteString("\tsents := []error{" + strings.Join(append([]string{"ErrNil" + T}, sentNames...), ", ") + "}\n\t_ = sents\n")
 		for i, v := range vals {
 			var as []string
 			v.assignments("v", &as)
-			sb.WriteString("\t{\n\t\tv := &" + dr.Decl + "{}\n")
+			sb.WriteString("\t{\n\t\tv := &" + T + "{}\n")
 			for _, a := range as {
 				sb.WriteString("\t\t" + a + "\n")
 			}
-			fmt.Fprintf(&sb, "\t\tfmt.Fprintf(w, \"%s\\t%s\\t%d\\t%%s\\n\", rt.Run(func() error { return v.Validate() }))\n", sc.ID, dr.Decl, i)
+			sb.WriteString("\t\tvar extra []string\n")
+			if has("mut") {
+				sb.WriteString("\t\tbefore := rt.Snapshot(v)\n")
+			}
+			sb.WriteString("\t\tvar err error\n\t\tout := rt.Run(func() error { err = v.Validate(); return err })\n")
+			if has("is") {
+				sb.WriteString("\t\textra = append(extra, \"is=\"+rt.IsBits(err, sents))\n")
+				sb.WriteString("\t\textra = append(extra, \"fn=\"+rt.Run(func() error { return Validate" + T + "(v) }))\n")
+				sb.WriteString("\t\textra = append(extra, \"bg=\"+rt.Run(func() error { return v.ValidateContext(context.Background()) }))\n")
+				sb.WriteString("\t\textra = append(extra, \"fnbg=\"+rt.Run(func() error { return Validate" + T + "Context(context.Background(), v) }))\n")
+			}
+			if has("ctx") {
+				fmt.Fprintf(&sb, "\t\tfor k := 0; k <= %d; k++ {\n", dr.Polls+1)
+				sb.WriteString("\t\t\tfor _, kind := range []error{context.Canceled, context.DeadlineExceeded} {\n")
+				sb.WriteString("\t\t\t\tc := &rt.FlipCtx{Context: context.Background(), K: k, Kind: kind}\n")
+				sb.WriteString("\t\t\t\to := rt.Run(func() error { return v.ValidateContext(c) })\n")
+				sb.WriteString("\t\t\t\textra = append(extra, fmt.Sprintf(\"ctx%d%s=%s#%d\", k, map[bool]string{true: \"c\", false: \"d\"}[kind == context.Canceled], o, c.Calls))\n")
+				sb.WriteString("\t\t\t}\n\t\t}\n")
+			}
+			if has("mut") {
+				sb.WriteString("\t\tout2 := rt.Run(func() error { return v.Validate() })\n")
+				sb.WriteString("\t\tafter := rt.Snapshot(v)\n")
+				sb.WriteString("\t\textra = append(extra, fmt.Sprintf(\"mut=%v\", before != after), fmt.Sprintf(\"rep=%v\", out == out2), fmt.Sprintf(\"sentunset=%v\", rt.SentinelValuesUnset(sents)))\n")
+			}
+			if has("alloc") {
+				sb.WriteString("\t\tif out == \"nil\" {\n")
+				sb.WriteString("\t\t\ta1 := testing.AllocsPerRun(20, func() { _ = v.Validate() })\n")
+				sb.WriteString("\t\t\ta2 := testing.AllocsPerRun(20, func() { _ = Validate" + T + "(v) })\n")
+				sb.WriteString("\t\t\ta3 := testing.AllocsPerRun(20, func() { _ = v.ValidateContext(context.Background()) })\n")
+				sb.WriteString("\t\t\textra = append(extra, fmt.Sprintf(\"alloc=%v/%v/%v\", a1, a2, a3))\n\t\t}\n")
+			}
+			fmt.Fprintf(&sb, "\t\tfmt.Fprintf(w, \"%s\\t%s\\t%d\\t%%s\\t%%s\\n\", out, strings.Join(extra, \";\"))\n", sc.ID, T, i)
+			sb.WriteString("\t}\n")
+		}
+		if has("is") {
+			// nil receiver
+			sb.WriteString("\t{\n\t\tvar v *" + T + "\n")
+			sb.WriteString("\t\tvar err error\n\t\tout := rt.Run(func() error { err = v.Validate(); return err })\n")
+			fmt.Fprintf(&sb, "\t\tfmt.Fprintf(w, \"%s\\t%s\\tnilrecv\\t%%s\\tis=%%s;ctx=%%s\\n\", out, rt.IsBits(err, sents), rt.Run(func() error { return v.ValidateContext(context.Background()) }))\n", sc.ID, T)
 			sb.WriteString("\t}\n")
 		}
 		sb.WriteString("}\n\n")
@@ -521,7 +708,7 @@ func (r *runner) runAll(scs []*Scenario) []*DeclResult {
 			sem <- struct{}{}
 			defer func() { <-sem }()
 			res := r.generate(sc)
-			r.writeDriver(sc, res, "")
+			r.writeDriver(sc, res, r.mode)
 			mu.Lock()
 			all[sc.ID] = res
 			mu.Unlock()
@@ -581,6 +768,7 @@ func (r *runner) runAll(scs []*Scenario) []*DeclResult {
 	_ = os.WriteFile(filepath.Join(r.mod(), "cmd", "drv", "main.go"), []byte(mb.String()), 0o644)
 	bo, code := r.cmd(r.mod(), "go", "build", "-o", filepath.Join(r.work, "drv"), "./cmd/drv")
 	obs := map[string]string{}
+	extra := map[string]string{}
 	if code != 0 {
 		fmt.Fprintln(os.Stderr, "driver build failed:", tail(bo, 3000))
 	} else {
@@ -591,9 +779,10 @@ func (r *runner) runAll(scs []*Scenario) []*DeclResult {
 			fmt.Fprintln(os.Stderr, "driver run failed:", err)
 		}
 		for _, line := range strings.Split(string(o), "\n") {
-			parts := strings.SplitN(line, "\t", 4)
-			if len(parts) == 4 {
+			parts := strings.SplitN(line, "\t", 5)
+			if len(parts) == 5 {
 				obs[parts[0]+"/"+parts[1]+"/"+parts[2]] = parts[3]
+				extra[parts[0]+"/"+parts[1]+"/"+parts[2]] = parts[4]
 			}
 		}
 	}
@@ -603,6 +792,10 @@ func (r *runner) runAll(scs []*Scenario) []*DeclResult {
 			if dr.Builds && dr.File != "" {
 				for i := range dr.Values {
 					dr.Obs = append(dr.Obs, obs[fmt.Sprintf("%s/%s/%d", dr.Scenario, dr.Decl, i)])
+					dr.Extra = append(dr.Extra, extra[fmt.Sprintf("%s/%s/%d", dr.Scenario, dr.Decl, i)])
+				}
+				if o, ok := obs[fmt.Sprintf("%s/%s/nilrecv", dr.Scenario, dr.Decl)]; ok {
+					dr.NilRecv = o + "\t" + extra[fmt.Sprintf("%s/%s/nilrecv", dr.Scenario, dr.Decl)]
 				}
 			}
 			res = append(res, dr)
@@ -611,12 +804,15 @@ func (r *runner) runAll(scs []*Scenario) []*DeclResult {
 	return res
 }
 
-// genMain: harness gen <family> <tier> <seed> <workdir> <govalid binary> <repo>
+// genMain: harness gen <family> <tier> <seed> <workdir> <govalid binary> <repo> [modes]
 func genMain(args []string) {
 	initEnv()
 	family, tier := args[0], args[1]
 	seed, _ := strconv.ParseInt(args[2], 10, 64)
 	r := &runner{work: args[3], govalid: args[4], repo: args[5]}
+	if len(args) > 6 {
+		r.mode = args[6]
+	}
 	if err := r.setup(); err != nil {
 		fmt.Fprintln(os.Stderr, "setup:", err)
 		os.Exit(2)
